@@ -282,6 +282,7 @@ func registry() []*propertySpec {
 	ps = append(ps, graphProperties()...)
 	ps = append(ps, appProperties()...)
 	ps = append(ps, parseProperties()...)
+	ps = append(ps, lexerProperties()...)
 	for _, p := range ps {
 		if sup := supporting[p.ID]; len(sup.rules) > 0 {
 			p.Rules = append(p.Rules, sup.rules...)
